@@ -450,7 +450,7 @@ def build(tier):
     return CheckSpec(
         [
             Sub("prefix_chains", run_case, cases=cases_prefix_chains, exhaustive=True, note="nested sites at a, a/b, a/b/c (all 7 subsets) x 4 root-leaf placements, every request path over {a,b,c,x} up to length 4"),
-            Sub("histories", run_case, strategy=_case, budget={"quick": 2500, "thorough": 50000}, max_wall={"quick": 55, "thorough": 2400}),
+            Sub("histories", run_case, strategy=_case, budget={"quick": 2500, "thorough": 250000}, max_wall={"quick": 55, "thorough": 3600}),
         ],
         RULE,
         assumptions=[
